@@ -318,7 +318,7 @@ def gen_edge(kind, idx):
           ['sched_x', 11, 'false'], ['sleep', 150]]
     counts = {'1': 2, '2': 2, '3': 2, '4': 2, '5': 1, '6': 1, '7': 1, '8': 1, '9': 0, '10': 1 if kind == 'app' else 0, '11': 1}
     return {'name': '%s-edge-values' % kind, 'clock': kind, 'index': idx, 'tempo': [2, 1], 'tasks': tasks, 'threads': [th],
-            'final': 'clear', 'before_final': 0.25, 'after_final': 0.02, 'expect_counts': counts,
+            'final': 'clear', 'before_final': 4.0, 'after_final': 0.05, 'expect_counts': counts, 'wait_counts': counts,
             'expect_outcome': {'10': 'ok' if kind == 'app' else 'TypeError', '9': 'ok'}}
 
 
@@ -327,7 +327,7 @@ def gen_inf_result(kind, idx):
     return {'name': '%s-inf-result' % kind, 'clock': kind, 'index': idx, 'tempo': [1, 1],
             'tasks': {'1': {'results': [['num', 'inf']]}, '2': {'results': [['none']]}},
             'threads': [[['sched', 1, 1, 32], ['sched', 2, 1, 8]]],
-            'final': 'clear', 'wait_for': [2], 'before_final': 1.5, 'after_final': 0.02,
+            'final': 'clear', 'wait_counts': {'1': 1, '2': 1}, 'before_final': 2.5, 'after_final': 0.02,
             'expect_counts': {'1': 1, '2': 1}, 'inf_result': True}
 
 
@@ -337,7 +337,7 @@ def gen_late_parent(kind, idx):
     return {'name': '%s-late-parent' % kind, 'clock': kind, 'index': idx, 'tempo': [2, 1],
             'tasks': {'1': {'results': [['delta', 1, 32], ['none']], 'nested': [[['busy', 40], ['sched', 2, 1, 16]]]},
                       '2': {'results': [['none']]}},
-            'threads': [[['sched', 1, 1, 32]]], 'final': 'clear', 'wait_for': [2], 'before_final': 1.5,
+            'threads': [[['sched', 1, 1, 32]]], 'final': 'clear', 'wait_counts': {'1': 2, '2': 1}, 'before_final': 4.0,
             'after_final': 0.02, 'logical_exact': True, 'expect_counts': {'1': 2, '2': 1}}
 
 
@@ -346,7 +346,7 @@ def gen_ties(kind, idx):
     return {'name': '%s-ties-fifo' % kind, 'clock': kind, 'index': idx, 'tempo': [2, 1],
             'tasks': {str(t): {'results': [['none']]} for t in range(1, 9)},
             'threads': [[['abs', t, 4, 64] for t in (3, 1, 4, 8, 5, 2, 7, 6)]],
-            'final': 'clear', 'wait_for': list(range(1, 9)), 'before_final': 1.5, 'after_final': 0.02,
+            'final': 'clear', 'wait_for': list(range(1, 9)), 'before_final': 4.0, 'after_final': 0.02,
             'fifo': [3, 1, 4, 8, 5, 2, 7, 6], 'expect_counts': {str(t): 1 for t in range(1, 9)}}
 
 
@@ -355,8 +355,9 @@ def gen_two_clocks(kind, idx):
     twice on this clock (replaced): one wake-up"""
     return {'name': '%s-same-task-two-clocks' % kind, 'clock': kind, 'index': idx, 'tempo': [1, 1],
             'tasks': {'1': {'results': [['none']]}, '2': {'results': [['none']]}},
-            'threads': [[['sched', 1, 1, 16], ['xsched', 1, 1, 16], ['sched', 2, 1, 8], ['sched', 2, 1, 16], ['sleep', 250]]],
-            'final': 'clear', 'before_final': 0.1, 'after_final': 0.02, 'expect_counts': {'1': 2, '2': 1},
+            'threads': [[['sched', 1, 1, 16], ['xsched', 1, 1, 16], ['sched', 2, 1, 8], ['sched', 2, 1, 16], ['sleep', 200]]],
+            'final': 'clear', 'before_final': 4.0, 'after_final': 0.2, 'expect_counts': {'1': 2, '2': 1},
+            'wait_counts': {'1': 2, '2': 1},
             'expect_threads': {'1': 2}}
 
 
